@@ -132,9 +132,21 @@ def run_one(chk, sseed, cls, npoints=6, chunk_level=False, from_empty=False, nex
             crashes.append((k, label, sb))
 
         swap_budget = [8 if not chunk_level else 12]
+        # directed: right after a content-addressed (by-hash) file has been completed - size and date set - and before the
+        # other names of the same index are linked to it
+        alias_budget = [6]
+        byhash_done = [False]
 
         def on_fs(idx, op, paths):
             rel = os.path.relpath(paths[0], w.sb.base)
+            if byhash_done[0]:
+                byhash_done[0] = False
+                if alias_budget[0] > 0 and idx not in points:
+                    alias_budget[0] -= 1
+                    chk.count("crash_points_between_by_hash_file_and_its_aliases")
+                    take(idx, f"after-by-hash-complete {op} {rel}")
+            if op == "utime" and "/by-hash/" in rel:
+                byhash_done[0] = True
             swapish = op in ("rename", "rmtree") and "dists" in rel
             if idx in points or (swapish and swap_budget[0] > 0):
                 if swapish:
